@@ -7,8 +7,9 @@ TRUSTED_BASE = [
     "Coq 8.16.1 kernel (coqc; coqchk in the thorough tier)",
     "Print Assumptions of every theorem in coq/Properties/C18.v: closed under the global context",
     "hand-written model coq/Model/Channels.v (HttpDemux::select, prepare_speedtest with u32::from_str semantics, the download and upload countdowns); the reverse-proxy relay itself is the DuplexPipe of C02",
-    "translator tools/gen_tables.py -> Generated/ChannelFacts.v (select precedence and each test, speedtest constants and handlers' shape, ping answer, reverse-proxy destination = settings.server_address reached through connect_to_peer which has no policy check, the wait for the origin's response head reads the origin first and keeps a failed body write for later, no handler mentions the authenticator)",
+    "translator tools/gen_tables.py -> Generated/ChannelFacts.v (select precedence and each test, speedtest constants and handlers' shape, ping answer, reverse-proxy destination = settings.server_address reached through connect_to_peer which has no policy check, the wait for the origin's response head reads the origin first and keeps a failed body write for later, after the head the origin-bound end of the pipe keeps its first error to itself and discards the rest of the body, no handler mentions the authenticator)",
     "hand-written model coq/Model/Http1Download.v of the response side of Http1Codec (one-place channel, message in flight kept in the codec, partial writes, dropped listen futures, orderly close), pinned by fact HTTP1_MESSAGE_IN_FLIGHT_KEPT and run against the real codec over a scripted transport (engine c18_dl: the model's and the codec's offers, byte counts after every step and final bytes must be equal)",
+    "hand-written model coq/Model/RpRelay.v of the reverse proxy's exchange after the response head (origin's bytes, its end or error, progress / failure / end of the upload, failure of the client's side), pinned by fact RP_FAILED_UPLOAD_STOPS_THE_UPLOAD_ONLY and driven by the scenario c18_rp_refusal with a drained origin and a slow reader",
     "extraction + driver.ml, cross-checked against vm_compute; harness door verif::session on all four channels (HTTP/1.1 bytes / real h2 client), origin canary on loopback",
 ]
 ASSUMPTIONS = [
@@ -23,6 +24,8 @@ RULE = ("channels: ping host, speedtest host, reverse-proxy host, tunnel host wi
         "reverse proxy against a scripted origin (HTTP/1.1 through the door and the TLS listener, HTTP/3 through the QUIC listener): requests with a body of 5 .. 300000 bytes that the origin "
         "reads entirely, half or not at all before it answers; response heads of 60 .. 8000 bytes and 1 .. 100 fields written in one piece or cut at chosen and random offsets; "
         "an origin that answers 413 after the request head and closes with the 48 MiB body unread while the client is still sending (8 exchanges on fresh connections per case, door and TLS listener); "
+        "the same refusal with an answer of 300000 / 1 MiB body bytes (one piece, or head - 200 ms - body) to a client that reads 16 KiB at a time with 3 .. 5 ms between reads, the origin closing only "
+        "once its send queue is empty (3 exchanges per case, door); "
         "HTTP/1.1 response side on its own: scripts of 3 .. 16 steps (offers of 1 .. 300 bytes, runs of the listen loop with room for 0 .. 400 bytes, dropped listen futures, orderly end); "
         "non-trivial = every case; distinct = distinct request")
 
@@ -273,10 +276,25 @@ def gen_rp_cases(rng, thorough):
         cases.append(Case(li, None, kind="rp-origin:upload-refused-and-closed-unread" + {0: "", 1: "-listener"}[front], nontrivial=True,
                           meta={"rp_refusal": True, "front": front, "method": "POST", "path": "/rp/upload", "req_hs": req_hs, "size": size, "rounds": rounds,
                                 "wait": REFUSAL_WAIT_MS, "status": 413, "fields": fields, "head_len": len(head), "resp_len": 12}))
+    # (5) the same refusal with an answer larger than one read of the endpoint, to a client whose link is slower than the origin's:
+    # it reads 16 KiB at a time and pauses between reads. The origin closes only once its send queue is empty (every byte of the
+    # answer acknowledged by the endpoint's host), so the answer is complete on the endpoint's side of the origin connection when
+    # the endpoint's write of the request body fails
+    for name, resp_len, gap, pause in (("one-piece", 300000, 0, 5), ("head-then-body", 300000, 200, 5), ("1MiB", 1 << 20, 0, 3)):
+        fields = [("Content-Length", str(resp_len)), ("Connection", "close"), ("X-Refused-By", "origin")]
+        head = response_head(413, "Payload Too Large", fields)
+        size, rounds, wait = 48 << 20, LARGE_REFUSAL_ROUNDS, 600
+        req_hs = [("content-length", str(size))]
+        li = line("c18_rp_refusal", [[0, rounds, pause, 1], [7], list(b"/rp/upload"), flat(req_hs), [size, rng.below(256)], [wait, gap], list(head), [resp_len, rng.below(256)]])
+        cases.append(Case(li, None, kind="rp-origin:upload-refused-large-answer-slow-reader-" + name, nontrivial=True,
+                          meta={"rp_refusal": True, "front": 0, "method": "POST", "path": "/rp/upload", "req_hs": req_hs, "size": size, "rounds": rounds,
+                                "wait": wait, "status": 413, "fields": fields, "head_len": len(head), "resp_len": resp_len,
+                                "drain": True, "gap": gap, "pause": pause}))
     return cases
 
 
 REFUSAL_ROUNDS = 8
+LARGE_REFUSAL_ROUNDS = 3
 REFUSAL_WAIT_MS = 800
 
 
@@ -349,12 +367,15 @@ def judge_rp(case, impl):
     return []
 
 
-def judge_rp_refusal(case, impl):
+def judge_rp_refusal(case, impl, ctx=None):
     """Direct oracle for the refused upload, from the property text: the request reaches the configured origin as an HTTP/1.1 request
     carrying X-Original-Protocol, and the origin's response is relayed - in every one of the exchanges, each of which the origin
-    answered completely before it closed."""
+    answered completely before it closed. In the cases where the origin waits for its send queue to empty before it closes, an
+    exchange is judged only if the queue did empty: then the whole answer had reached the endpoint's host."""
     m = case.meta
     what = "%s, %s %s %s with Content-Length: %d, the client still sending" % (case.kind, FRONTS[m["front"]], m["method"], m["path"], m["size"])
+    if m.get("pause"):
+        what += " and reading the response 16 KiB at a time with %d ms between reads" % m["pause"]
     if impl == "995":
         return [("violation", "%s: the exchanges hung" % what)]
     t = impl.split()
@@ -363,14 +384,19 @@ def judge_rp_refusal(case, impl):
     if accepts != rounds:
         return [("violation", "%s: %d exchanges on fresh connections, %d connections reached the configured origin" % (what, rounds, accepts))]
     resp = "HTTP/1.1 %d with %d fields and a body of %d bytes" % (m["status"], len(m["fields"]), m["resp_len"])
-    bad, first = [], None
+    bad, first, judged = [], None, 0
     for r in range(rounds):
         st, fl, bd, oh, og = t[1 + 5 * r:6 + 5 * r]
         status = untok(st)[0]
         got_fields = unflat(untok(fl))
         body_len, body_ok = untok(bd)
         origin_head = bytes(untok(oh))
-        answered, written = untok(og)
+        answered, written, drained = (untok(og) + [0])[:3]
+        if m.get("drain") and drained != 1:
+            # the origin could not make sure that its whole answer had reached the endpoint's host (or could not write it at all
+            # because the endpoint did not take it in 20 s, which the hang verdict and the other exchanges cover): not judged
+            continue
+        judged += 1
         lines = origin_head.split(b"\r\n")
         hs = [l.lower() for l in lines[1:] if l]
         if lines[0] != ("%s %s HTTP/1.1" % (m["method"], m["path"])).encode() or b"x-original-protocol: http1" not in hs:
@@ -392,9 +418,14 @@ def judge_rp_refusal(case, impl):
             bad.append(r + 1)
             first = first or "in exchange %d the client received %s (it had written %d bytes of its body by then)" % (r + 1, why, written)
     if bad:
-        return [("violation", "%s: the origin reads the request head, waits %d ms, writes %s in one piece and closes without reading the body; "
-                              "it wrote its answer completely in all %d exchanges, the client received it in %d of them: %s"
-                              % (what, m["wait"], resp, rounds, rounds - len(bad), first))]
+        how = "in one piece" if not m.get("gap") else "(head, %d ms, body)" % m["gap"]
+        if m.get("drain"):
+            how += ", waits until its host reports every byte of it acknowledged by the endpoint's host"
+        return [("violation", "%s: the origin reads the request head, waits %d ms, writes %s %s and closes without reading the body; "
+                              "it wrote its answer completely in all %d exchanges%s, the client received it in %d of them: %s"
+                              % (what, m["wait"], resp, how, rounds, " (%d judged)" % judged if m.get("drain") else "", judged - len(bad), first))]
+    if m.get("drain") and judged == 0 and ctx is not None:
+        ctx.setdefault("skipped_env", []).append(case.kind)
     return []
 
 
@@ -405,7 +436,7 @@ def judge(case, impl, model, spec, ctx):
         if impl == "996":
             ctx.setdefault("skipped_env", []).append(case.kind)
             return []
-        return judge_rp_refusal(case, impl)
+        return judge_rp_refusal(case, impl, ctx)
     if case.meta and case.meta.get("wire"):
         return judge_wire(case, impl, model, spec)
     if case.meta and case.meta.get("dl"):
